@@ -142,7 +142,7 @@ theorem expandAt_good {α : Type} [Arith α] (si : SIConf) (n0 i : Nat) (c : Cor
             obtain ⟨p, _, rfl⟩ := hx
             exact expandOne_isChild u pfx sym p
           have hsinv : SInv (r.1.units.set i { u with expanded := some r.2 }) := by
-            refine ⟨?_, ?_, ?_⟩
+            refine ⟨?_, ?_, ?_, ?_⟩
             · intro id u1 m h1' hm p
               rw [hget] at h1'
               by_cases hid : i = id
@@ -177,6 +177,12 @@ theorem expandAt_good {α : Type} [Arith α] (si : SIConf) (n0 i : Nat) (c : Cor
                 simp at hx; rw [hplain.2] at hx; cases hx
               · simp [hid] at h1'
                 exact h1.struct.flag id u1 h1' hx
+            · intro id u1 h1' hx
+              rw [hget] at h1'
+              by_cases hid : i = id
+              · simp [hid] at h1'; subst h1'; exact hex
+              · simp [hid] at h1'
+                exact h1.struct.parent id u1 h1' hx
           have hinv' : Inv { r.1 with units := r.1.units.set i { u with expanded := some r.2 } } :=
             PInv.set_same_keys h1 hu' rfl hsinv
           refine ⟨hinv', ?_, ?_, ?_, ?_⟩
